@@ -353,7 +353,9 @@ fn gen_sig(rng: &mut Rng, level: usize, bs: usize, is: usize, layout: usize, kin
     // one-line width: indent + quals + "fn " + name + generics + "(" + params + ")" + [" " + ret] + (" {" | ";")
     let fixed = indent + quals.len() + 3 + generics.len() + 2 + ptotal + if ret.is_empty() { 0 } else { 1 + ret.len() } + if has_body { 2 } else { 1 };
     let target = (mw as i64 + d) as usize;
-    if target < fixed + 1 {
+    // a name of one column makes `snuggle_angle_bracket` true (the last line of the generics text is one
+    // column wide): outside the model's Sig, kept away from
+    if target < fixed + 2 {
         return None;
     }
     let name = ident(rng, target - fixed);
@@ -559,6 +561,7 @@ fn e2e_cond(o: &mut Outcome, rng: &mut Rng, thorough: bool) {
         "fn h() { if aaaaaaaa { x(); } else if bbbbbbbbb { y(); } while cccccccc { z(); } }",
         "fn k() { let aaaaaaaaaaaa = bbbbbbbbbbbbbbbb + cccccccccccc; let Some(x) = yyyyyyyyyy else { return; }; }",
         "fn m(aaaaaaaa: u32, bbbbbbbb: u32) -> Resultttttttt<u32> { 1 }",
+        "fn n() { if a { x(); } while b { y(); } if c { x(); } else if d { y(); } }",
     ];
     for item in items {
         for level in 0..7usize {
